@@ -109,6 +109,8 @@ func (p *Program) newInterpreter(cfg Config) *interpreter {
 		funcsRun:    map[*ssa.Function]int{},
 		harnessPkgs: p.Harness,
 		backing:     map[*value][]value{},
+		methCache:   map[methKey]*ssa.Function{},
+		fnInfos:     map[*ssa.Function]*fnInfo{},
 	}
 	if cfg.Trace {
 		i.mode |= EnableTracing
@@ -151,6 +153,9 @@ type EntryResult struct {
 	SolverTime      time.Duration
 	Steps           int64
 	NonTrivialPaths int
+	PathTime        time.Duration
+	SendTime        time.Duration
+	GetTime         time.Duration
 }
 
 // expectedLabels statically collects the constant labels of verifrt.Reach calls
@@ -250,6 +255,8 @@ func (p *Program) RunEntry(name string, cfg Config, workers int) *EntryResult {
 					res.SolverQueries += slv.Stats.Queries
 					res.SolverUnknown += slv.Stats.Unknown
 					res.SolverTime += slv.Stats.Time
+					res.SendTime += slv.Stats.SendTime
+					res.GetTime += slv.Stats.GetTime
 					for f, c := range i.funcsRun {
 						res.Funcs[f.String()] += c
 					}
@@ -262,7 +269,9 @@ func (p *Program) RunEntry(name string, cfg Config, workers int) *EntryResult {
 			}()
 			for {
 				mu.Lock()
-				for len(work) == 0 && active > 0 && !stop {
+				// a worker without an interpreter joins only when enough work is queued
+				// (creating an interpreter and re-running package inits is not free)
+				for !stop && ((len(work) == 0 && active > 0) || (i == nil && w > 0 && len(work) < 3*w && active > 0)) {
 					cond.Wait()
 				}
 				if stop || (len(work) == 0 && active == 0) {
@@ -290,6 +299,10 @@ func (p *Program) RunEntry(name string, cfg Config, workers int) *EntryResult {
 					i = p.newInterpreter(cfg)
 					var err error
 					slv, err = solver.Start(cfg.Solver, cfg.SolverTimeout)
+					if err == nil && os.Getenv("GOSYM_LOG") != "" && w == 0 {
+						f, _ := os.Create(os.Getenv("GOSYM_LOG"))
+						slv.Log = f
+					}
 					if err == nil && os.Getenv("GOSYM_DUMP") != "" {
 						slv.KeepScript = true
 					}
@@ -303,11 +316,14 @@ func (p *Program) RunEntry(name string, cfg Config, workers int) *EntryResult {
 						return
 					}
 				}
+				tp0 := time.Now()
 				pr, ps := i.runPath(entry, prefix, slv)
+				pathDur := time.Since(tp0)
 
 				mu.Lock()
 				active--
 				work = append(work, ps.pending...)
+				res.PathTime += pathDur
 				res.Outcomes[pr.Outcome]++
 				res.Stats.Paths++
 				switch pr.Outcome {
